@@ -34,6 +34,7 @@ struct MiniEngine {
     std::function<MiniOutcome(const J&)> run;
     std::function<std::vector<J>(const J&)> shrinks; // smaller candidates
     int cpu_limit = 20; // CPU seconds one run may take (a spinning run is a crash)
+    std::function<J(const J&)> summary; // compact form of a case, for samples
 };
 
 inline double mini_now() {
@@ -189,8 +190,18 @@ inline int mini_run(
                     out, "R %ld %d %016llx %016llx %d\n", k, o.key.empty() ? 0 : 1,
                     (unsigned long long)o.hash,
                     (unsigned long long)o.signature, (int)o.nontrivial);
-                if (k < i + 2)
-                    fprintf(out, "P %s\n", c.str().substr(0, 1500).c_str());
+                if (k < i + 2) {
+                    std::string full = c.str();
+                    if (full.size() > 1800 && e.summary)
+                        full = e.summary(c).str();
+                    if (full.size() > 1800) {
+                        J n = J::obj();
+                        n.set("note", "case too large to print here");
+                        n.set("json_bytes", J((unsigned long long)full.size()));
+                        full = n.str();
+                    }
+                    fprintf(out, "P %s\n", full.c_str());
+                }
                 if (!o.key.empty()) {
                     flush_counters();
                     fprintf(out, "F %ld\n", k);
